@@ -4,8 +4,9 @@
 (* equality, Unicode simple case folding, and a fragment of RE2 search     *)
 (* written as a recursive matcher over a regular-expression AST.           *)
 (* Characters are symbolic; CharTable (generated from Go's unicode package *)
-(* by the harness) supplies Chars, the fold-orbit representative Fold[c]   *)
-(* and the ASCII classes IsWordC / IsDigitC / IsSpaceC.                    *)
+(* by the harness) supplies Chars, the fold-orbit representative Fold[c],  *)
+(* the code point Code[c] and the ASCII classes IsWordC / IsDigitC /       *)
+(* IsSpaceC.                                                               *)
 (* The harness cross-checks Ref against regexp/strings.EqualFold on every  *)
 (* emitted query (oracle self-check); a disagreement is a machinery        *)
 (* failure, not a violation.                                               *)
@@ -18,6 +19,9 @@ Lit(c)      == [op |-> "lit", c |-> c]
 AnyCh       == [op |-> "any"]
 Cls(S, neg) == [op |-> "cls", S |-> S, neg |-> neg]
 Perl(k)     == [op |-> "perl", k |-> k]         \* "w" "W" "d" "D" "s" "S"
+Rng(lo, hi) == [op |-> "rng", lo |-> lo, hi |-> hi]   \* the class [lo-hi]: every character whose code lies between the end points' -
+                                                      \* it may span letters although neither end point is one ([1-_] holds A..Z)
+Esc(c)      == [op |-> "esc", c |-> c]          \* the character c written as a numeric escape (\113, \x{17F}): no letter in the text
 Cat(l, r)   == [op |-> "cat", l |-> l, r |-> r]
 Alt(l, r)   == [op |-> "alt", l |-> l, r |-> r]
 Star(r)     == [op |-> "star", r |-> r]
@@ -52,6 +56,8 @@ Ends(r, s, i, ci) ==
     [] r.op = "any"  -> IF i <= Len(s) THEN {i+1} ELSE {}
     [] r.op = "cls"  -> IF i <= Len(s) /\ ((\E c \in r.S : CharEq(s[i], c, ci)) # r.neg) THEN {i+1} ELSE {}
     [] r.op = "perl" -> IF i <= Len(s) /\ PerlHas(r.k, s[i], ci) THEN {i+1} ELSE {}
+    [] r.op = "rng"  -> IF i <= Len(s) /\ (\E d \in Chars : CharEq(s[i], d, ci) /\ Code[r.lo] <= Code[d] /\ Code[d] <= Code[r.hi]) THEN {i+1} ELSE {}
+    [] r.op = "esc"  -> IF i <= Len(s) /\ CharEq(s[i], r.c, ci) THEN {i+1} ELSE {}
     [] r.op = "cat"  -> UNION {Ends(r.r, s, j, ci) : j \in Ends(r.l, s, i, ci)}
     [] r.op = "alt"  -> Ends(r.l, s, i, ci) \cup Ends(r.r, s, i, ci)
     [] r.op = "opt"  -> {i} \cup Ends(r.r, s, i, ci)
